@@ -1,5 +1,5 @@
 (* C12 - Change-tracking storages report every insertion, removal and mutable access. *)
-From SV Require Import Store.Raw Store.Masked Store.StoreInv World.Env World.StoreSim Store.Events World.World.
+From SV Require Import Store.Raw Store.Masked Store.StoreInv World.Env World.StoreSim Store.Events World.World World.Join World.JoinEvents.
 
 (* Every operation of the Storage API other than the bulk clear() and the emission switch, on any
    wrapper over any inner kind: the events it appends (oldest first), replayed over the membership
@@ -52,9 +52,18 @@ Example C12_nonvacuous :
     [WEvents [EInserted 0; EModified 0; EModified 0; ERemoved 0]; WEvents [EInserted 0; EModified 0; ERemoved 0]].
 Proof. vm_compute. reflexivity. Qed.
 
+(* joins: the three primitives a join uses on a storage append exactly these events - nothing for reading an item,
+   Modified for a mutable fetch (FlaggedStorage: on the fetch itself; DerefFlaggedStorage: exactly when the item was
+   dereferenced mutably or written), Removed for a drained item - and nothing while emission is off or on a plain storage *)
+Theorem C12_events_of_join_accesses : forall ms m a c, MInv ms m ->
+  NS.mem (match a with JRead i | JAccess i _ _ | JRemove i => i end) (ms_mask ms) = true ->
+  ms_chan (fst (fst (ms_jact ms a c))) = (if ms_emit ms then ev_of_act (ms_wrap ms) a else []) ++ ms_chan ms.
+Proof. exact ms_jact_chan. Qed.
+
 Print Assumptions C12_events_replay_membership.
 Print Assumptions C12_replay_composes.
 Print Assumptions C12_insert_reports.
 Print Assumptions C12_entity_deletion_reports.
 Print Assumptions C12_modified_exactly_on_mutable_access.
 Print Assumptions C12_read_only_is_silent.
+Print Assumptions C12_events_of_join_accesses.
